@@ -276,7 +276,7 @@ func runQueryWire(c *Ctx, pr *PropertyRun, prop, pkg string) {
 			}
 		}
 		return strings.HasPrefix(xs.Named.Obj().Name(), "zzVerifControl")
-	})
+	}, func(*xmlStruct) bool { return true })
 	sch.RequireRole("wire-struct", "attribute", "child-element")
 	if p.Control {
 		sch.ExpectControl("bogus-attr")
@@ -381,7 +381,7 @@ func unalteredSinks(res *FFResult, label string) []string {
 	}
 	var out []string
 	for _, ev := range res.Events {
-		if b, ok := ev.Labels[id]; ok && b&bitU != 0 {
+		if b, ok := ev.Data[id]; ok && b&bitU != 0 {
 			out = append(out, ev.Sink)
 		}
 	}
